@@ -9,7 +9,7 @@ import types
 import z3
 
 from . import smt
-from .ctx import Ctx, Undecided, PathEnd, Signal, PyExc, Ret, Brk, Cont
+from .ctx import Ctx, Undecided, PathEnd, Signal, PyExc, Ret, Brk, Cont, Impure
 from .values import (SV, Ref, Rope, SymSeq, Ext, ExcVal, BigInt, Closure, BoundMethod, ValMethod, Opaque, OptV,
                      z, tag_of, concrete)
 
@@ -241,9 +241,19 @@ class Interp:
 
     def cond(self, c, test):
         """Truth of a test expression; pure boolean structure is kept as one formula (no forking)."""
-        f = self.pure_truth(c, test)
-        if f is not None:
-            return f
+        if isinstance(test, ast.BoolOp) or (isinstance(test, ast.UnaryOp) and isinstance(test.op, ast.Not)):
+            # eager evaluation is only an optimisation: it is abandoned as soon as an operand would fork or raise,
+            # and the test is then evaluated with Python's short-circuit order
+            was = c.dry
+            c.dry = True
+            try:
+                f = self.pure_truth(c, test)
+            except (Impure, PyExc):
+                f = None
+            finally:
+                c.dry = was
+            if f is not None:
+                return f
         return truth(c, self.ev(c, test, raw=True))
 
     def pure_truth(self, c, e):
